@@ -279,6 +279,8 @@ func init() {
 		{"argo-pods", 2, c18GenArgoPods},
 		{"argo-pytorchjob", 2, c18GenSkipTop("argoproj.io/v1alpha1", "Workflow", "pytorch")},
 		{"runai-training-job", 1, c18GenSkipTop("run.ai/v2alpha1", "TrainingWorkload", "job")},
+		{"argo-job", 1, c18GenSkipTop("argoproj.io/v1alpha1", "Workflow", "job")},
+		{"unknown-crd-job", 1, c18GenUnknownJob},
 		{"runai-inference-deployment", 1, c18GenSkipTop("run.ai/v1", "InferenceWorkload", "deployment")},
 		{"runai-distributed-mpijob", 1, c18GenSkipTop("run.ai/v2alpha1", "DistributedWorkload", "mpi")},
 		{"runai-interactive-statefulset", 1, c18GenSkipTop("run.ai/v2alpha1", "InteractiveWorkload", "statefulset")},
@@ -295,6 +297,11 @@ func init() {
 		{"runaijob", 1, c18GenSimple("run.ai/v1", "RunaiJob", "train", nil)},
 	}
 }
+
+var c18PlainLabelShapes = map[string]bool{"pod": true, "spark": true, "deployment": true, "replicaset": true, "statefulset": true, "job": true,
+	"pytorchjob": true, "tfjob": true, "mpijob": true, "xgboostjob": true, "jaxjob": true, "notebook": true, "jobset": true,
+	"raycluster": true, "rayjob": true, "rayservice": true, "lws": true, "unknown-crd": true, "unknown-crd-deployment": true,
+	"amljob": true, "spotrequest": true, "seldon": true, "vmi": true, "tekton": true, "runaijob": true, "unknown-crd-job": true}
 
 func (g *c18G) nPods(max int) int { return g.between(1, max, "nPods") }
 
@@ -411,9 +418,19 @@ func c18GenJob(g *c18G, w int, m *c18Meta) c18Workload {
 		spec["completions"] = int64(g.between(1, 6, "jobCompletionsV"))
 	}
 	top := g.obj("batch/v1", "Job", name, m.ownerLabels, m.ownerAnn, nil, map[string]any{"spec": spec})
+	par, _ := spec["parallelism"].(int64)
+	legacy := g.c.Cfg.SearchLegacy && par <= 1 && g.chance(2, "jobLegacyPodGroup")
+	if legacy {
+		// search-legacy-pg: a PodGroup named after the Job (the old naming for non-parallel jobs) is reused for all its pods
+		g.c.Existing = append(g.c.Existing, c18Existing{Name: c18PGName(top.Name, top.UID), Owner: top, Queue: "legacy-queue"})
+	}
 	for i := 0; i < n; i++ {
 		pn := g.name(name)
-		g.addPod(w, pn, &top, m, c18PodOpt{key: pn})
+		if legacy {
+			g.addPod(w, pn, &top, m, c18PodOpt{key: "all", wantName: c18PGName(top.Name, top.UID)})
+		} else {
+			g.addPod(w, pn, &top, m, c18PodOpt{key: pn})
+		}
 	}
 	return c18Workload{Shape: "job", Top: top, WantMin: 1, WantPrio: g.docPrio(m, "train"), WantOwnerIs: "top"}
 }
@@ -588,9 +605,9 @@ func c18GenJobSet(trainJob bool) func(g *c18G, w int, m *c18Meta) c18Workload {
 		order := g.pick("jsOrder", "", "InOrder", "AnyOrder")
 		nRJ := g.between(1, 3, "jsReplicatedJobs")
 		type rj struct {
-			name                   string
-			replicas, par, compl   int
-			min                    int
+			name                 string
+			replicas, par, compl int
+			min                  int
 		}
 		var rjs []rj
 		var rjSpecs []any
@@ -660,9 +677,9 @@ func c18GenRay(kind string) func(g *c18G, w int, m *c18Meta) c18Workload {
 	return func(g *c18G, w int, m *c18Meta) c18Workload {
 		apiVersion := g.pick("rayVersion", "ray.io/v1", "ray.io/v1", "ray.io/v1alpha1")
 		type wg struct {
-			name               string
+			name                 string
 			replicas, min, hosts int
-			suspended          bool
+			suspended            bool
 		}
 		var groups []wg
 		var specs []any
@@ -734,6 +751,15 @@ func c18GenRay(kind string) func(g *c18G, w int, m *c18Meta) c18Workload {
 			// the submitter Job of a RayJob: Pod -> Job -> RayJob, no ray.io/group label
 			job := g.obj("batch/v1", "Job", name, nil, nil, &top, map[string]any{"spec": map[string]any{"template": g.podTemplate(m)}})
 			g.addPod(w, g.name(name), &job, m, c18PodOpt{role: map[string]string{"batch.kubernetes.io/job-name": name}, key: "all", wantName: want, wantSub: ""})
+		}
+		if g.chance(2, "rayLegacyPodGroup") {
+			// a PodGroup without sub-groups left by an older pod-grouper: the Ray plugin keeps it free of sub-groups
+			g.c.Existing = append(g.c.Existing, c18Existing{Name: want, Owner: top, Queue: "legacy-queue", Labels: map[string]string{"legacy": "true"}})
+			for i := range g.c.Pods {
+				if g.c.Pods[i].W == w {
+					g.c.Pods[i].WantSub = ""
+				}
+			}
 		}
 		return c18Workload{Shape: map[string]string{"RayCluster": "raycluster", "RayJob": "rayjob", "RayService": "rayservice"}[kind], Top: top, WantOwnerIs: "top"}
 	}
@@ -899,6 +925,16 @@ func c18GenUnknownDeploymentOf(apiVersion, kind string) func(g *c18G, w int, m *
 		}
 		return c18Workload{Shape: shape, Top: top, WantMin: 1, WantOwnerIs: "top"}
 	}
+}
+
+// unknown CRD that manages a batch Job: the top owner is unknown, so the default rule applies (one group for all pods)
+func c18GenUnknownJob(g *c18G, w int, m *c18Meta) c18Workload {
+	top := g.obj("example.com/v1", "Widget", g.name("wjob"), m.ownerLabels, m.ownerAnn, nil, map[string]any{"spec": map[string]any{"size": int64(2)}})
+	job := g.obj("batch/v1", "Job", top.Name, m.midLabels, nil, &top, map[string]any{"spec": map[string]any{"parallelism": int64(3), "template": g.podTemplate(m)}})
+	for i, n := 0, g.nPods(4); i < n; i++ {
+		g.addPod(w, g.name(job.Name), &job, m, c18PodOpt{key: "all", wantName: c18PGName(top.Name, top.UID)})
+	}
+	return c18Workload{Shape: "unknown-crd-job", Top: top, WantMin: 1, WantOwnerIs: "top"}
 }
 
 func c18GenTekton(g *c18G, w int, m *c18Meta) c18Workload {
@@ -1092,6 +1128,27 @@ func c18GenCase(t *rapid.T) *c18Case {
 		m := g.meta()
 		wl := sh.gen(g, w, m)
 		wl.Shape = sh.name
+		if c18PlainLabelShapes[sh.name] && len(m.midLabels) == 0 {
+			// shapes whose PodGroup is derived from exactly the generated top owner and the pod template
+			oq, pq := m.ownerLabels[c.Cfg.QueueKey], m.podLabels[c.Cfg.QueueKey]
+			if oq != "" && (pq == "" || pq == oq) {
+				wl.WantQueue = oq
+			} else if oq == "" && pq != "" {
+				wl.WantQueue = pq
+			}
+			for _, e := range c.Existing {
+				if e.Owner == wl.Top {
+					wl.WantQueue = "" // a pre-existing PodGroup keeps its queue ("queue after creation" belongs to other actors)
+				}
+			}
+			if c.Cfg.DefaultsCM == "" {
+				v := m.ownerLabels["kai.scheduler/preemptibility"]
+				if v == "" {
+					v = m.podLabels["kai.scheduler/preemptibility"]
+				}
+				wl.WantPreempt = &v
+			}
+		}
 		c.Workloads = append(c.Workloads, wl)
 	}
 	if g.chance(1, "hetero") && g.chance(5, "hetero2") {
